@@ -199,6 +199,13 @@ impl Register {
 
     /// Check if a register op is valid for our current register
     pub fn check_register_op(&self, op: &RegisterOp) -> Result<()> {
+        // an op is only valid for the register it was created (and signed) for
+        if op.address() != self.address {
+            return Err(Error::RegisterAddrMismatch {
+                dst_addr: Box::new(op.address()),
+                reg_addr: Box::new(self.address),
+            });
+        }
         if self.permissions.can_anyone_write() {
             return Ok(()); // anyone can write, so no need to check the signature
         }
